@@ -19,7 +19,7 @@ RULE = (
     "ext_spfs <= base_spfs, superdtl <= base_uspfs, superdtl <= ext_spfs, base_uspfs <= base_spfs, thl <= lca, thl = lca "
     "when hgt = inf; single-family slice (every leaf carries family a, every input of the P-slice): ext_spfs = superdtl "
     "= thl and base_spfs = base_uspfs = lca. All costs are the implementations' own cost() of the returned solutions "
-    "(C06 ties those to the model). Non-trivial (input, vector): at least one of the inequalities is strict."
+    "(C06 ties those to the model), under both retention policies; the menu contains vectors with hgt < dup and hgt = 0. Non-trivial (input, vector): at least one of the inequalities is strict."
 )
 ASSUMPTIONS = ["costs compared are the implementations' own cost() values (validated by C06)", "coherent cost region only"]
 BUDGET = {"quick": 300, "thorough": 3000}
@@ -32,40 +32,44 @@ def worker_init():
 
 def plan(tier, seed):
     core = [c for c in spaces.CV_CORE if spaces.coherent(c)]
+    # transfers cheaper than duplications (hgt < dup, hgt = 0): the regime in which a mis-priced transfer wins outright
+    # instead of through a tie
+    cheap_hgt = [(0, 3, 2, 1, 1), (0, 1, 0, 1, 1), (1, 2, 1, 1, 0)]
+    assert all(spaces.coherent(c) for c in cheap_hgt)
     out = []
     o3, o2 = spaces.ordered_syntenies(3), spaces.ordered_syntenies(2)
     if tier == "quick":
-        out += L.split_plan("labelled:O3x2x3", spaces.shape_pairs(3, 2), o3, 150, {"mode": "lab", "costs": [core[0], core[2], core[7]]})
+        out += L.split_plan("labelled:O3x2x3", spaces.shape_pairs(3, 2), o3, 150, {"mode": "lab", "costs": [core[0], core[2], core[7], cheap_hgt[0]]})
         for osh, ssh in spaces.shape_pairs(4, 3):
-            out.append({"slice": "single-family:P4x3", "mode": "single", "osh": osh, "ssh": ssh, "costs": core[:4] + [core[7]]})
+            out.append({"slice": "single-family:P4x3", "mode": "single", "osh": osh, "ssh": ssh, "costs": core[:4] + [core[7]] + cheap_hgt})
         return out
-    out += L.split_plan("labelled:O3x3x3", spaces.shape_pairs(3, 3), o3, 100, {"mode": "lab", "costs": core})
-    out += L.split_plan("labelled:O4x3x2", spaces.shape_pairs(4, 3, min_obj=4), o2, 100, {"mode": "lab", "costs": core[:4] + [core[7]]})
+    out += L.split_plan("labelled:O3x3x3", spaces.shape_pairs(3, 3), o3, 100, {"mode": "lab", "costs": core + cheap_hgt})
+    out += L.split_plan("labelled:O4x3x2", spaces.shape_pairs(4, 3, min_obj=4), o2, 100, {"mode": "lab", "costs": core[:4] + [core[7]] + cheap_hgt[:2]})
     for osh, ssh in spaces.shape_pairs(4, 4):
-        out.append({"slice": "single-family:P4x4", "mode": "single", "osh": osh, "ssh": ssh, "costs": core})
+        out.append({"slice": "single-family:P4x4", "mode": "single", "osh": osh, "ssh": ssh, "costs": core + cheap_hgt})
     for osh, ssh in spaces.shape_pairs(5, 3, min_obj=5):
-        out.append({"slice": "single-family:P5x3", "mode": "single", "osh": osh, "ssh": ssh, "costs": core[:3] + [core[7]]})
+        out.append({"slice": "single-family:P5x3", "mode": "single", "osh": osh, "ssh": ssh, "costs": core[:3] + [core[7]] + cheap_hgt[:2]})
     return out
 
 
-def min_costs(O, S, leafmap, leafsyn, costs):
+def min_costs(O, S, leafmap, leafsyn, costs, policy="ANY"):
     """-> (dict algo -> implementation minimum cost, error)"""
     res = {}
     for algo in ALGOS:
         try:
             if algo in ("lca", "thl"):
                 inp, _, _ = A.build_input(O, S, leafmap, costs)
-                outs = [reconcile_lca(inp)] if algo == "lca" else list(reconcile_thl(inp, A.POLICY["ANY"]))
+                outs = [reconcile_lca(inp)] if algo == "lca" else list(reconcile_thl(inp, A.POLICY[policy]))
                 cs = {A.impl_cost(o.cost()) for o in outs}
             else:
-                r = L.run_labelled(algo, O, S, leafmap, leafsyn, costs, "ANY")
+                r = L.run_labelled(algo, O, S, leafmap, leafsyn, costs, policy)
                 if r.error:
                     return res, r.error
                 cs = {c for _, _, c in r.sols}
         except Exception as exc:
             return res, f"{algo} raised {type(exc).__name__}: {exc}\n{traceback.format_exc(limit=5)}"
         if len(cs) != 1:
-            return res, f"{algo}/ANY returned {len(cs)} distinct costs"
+            return res, f"{algo}/{policy} returned {len(cs)} distinct costs"
         res[algo] = cs.pop()
     return res, None
 
@@ -89,12 +93,14 @@ def relations(res, costs, single):
 
 
 def check(O, S, leafmap, leafsyn, costs, single):
-    res, err = min_costs(O, S, leafmap, leafsyn, costs)
-    if err:
-        return ("exception", err), False
-    bad, strict = relations(res, costs, single)
-    if bad:
-        return ("relation", "; ".join(bad)), strict
+    strict = False
+    for policy in ("ANY", "ALL"):
+        res, err = min_costs(O, S, leafmap, leafsyn, costs, policy)
+        if err:
+            return ("exception", err), False
+        bad, strict = relations(res, costs, single)
+        if bad:
+            return ("relation", f"policy {policy}: " + "; ".join(bad)), strict
     return None, strict
 
 
